@@ -8,6 +8,7 @@ from vf.world.poolworld import FINAL, LocalStatus, Pool
 from gwf.backends.local import Server, encode
 
 META = dict(LP.META_COMMON)
+META["solver_reasoned"] = 'selectors over message shapes and interleaving positions.'
 META["real"] = ["gwf.backends.local.Server.handle_connection", "gwf.backends.local.Server.send_response", "gwf.backends.local.encode", "gwf.backends.local.CustomEncoder"] + LP.META_COMMON["real"]
 META["stubs"] = LP.META_COMMON["stubs"] + ["stream reader/writer per connection (readline returns the next line, b'' at EOF)"]
 META["outside"] = ["arbitrary byte sequences (json decoding is C code: a catalogue of message shapes is used)", "the TCP accept loop, partial lines", "the 'shutdown' request (a legitimate command)"] + LP.META_COMMON["outside"]
